@@ -100,6 +100,9 @@ def run(prop, cfg, tier, seed):
         for v in extra:
             sr.oracle_viol.append(v)
 
+    if header:
+        h1.confirm_timeouts(header, sr)
+
     # ---- tool streams tied to this property (e.g. pvlower: what builder.go emits for a grammar, read back and run
     # on the real runtime, against the reference evaluation of the AST)
     tool_reports = {}
